@@ -16,6 +16,7 @@ package main
 import (
 	"fmt"
 	"sort"
+	"time"
 	"unicode"
 
 	"github.com/dlclark/regexp2/v2/syntax"
@@ -25,13 +26,16 @@ func init() {
 	registerLeg("c03-bm", "C03", legC03BM)
 }
 
+// number of (pattern, text) batches whose Scan calls did not return
+var bmHung int
+
 type bmCase struct {
 	pat     []rune
 	ci, rtl bool
-	src     string            // where the pattern comes from
-	real    *syntax.BmPrefix  // the writer's own machine (nil: built through VerifNewBmPrefix)
-	extra   []rune            // foreign runes for the texts
-	full    bool              // enumerate all texts (no sampling)
+	src     string           // where the pattern comes from
+	real    *syntax.BmPrefix // the writer's own machine (nil: built through VerifNewBmPrefix)
+	extra   []rune           // foreign runes for the texts
+	full    bool             // enumerate all texts (no sampling)
 }
 
 var bmFixed = []struct {
@@ -391,61 +395,91 @@ func c03BMPattern(c *Ctx, bc bmCase, ev map[string]int) {
 		}
 		var out []int64
 		nontrivial := false
-		for wi, w := range wins {
-			for q := 0; q <= n; q++ {
-				func() {
-					defer func() {
-						if r := recover(); r != nil {
-							out = append(out, 2, 0)
-							ev["scan:fault"]++
+		if bmHung >= 3 {
+			// three Scan calls already failed to return: the machine loops, stop feeding it
+			return
+		}
+		type bmAns struct {
+			out        []int64
+			nontrivial bool
+			ev         map[string]int
+		}
+		ch := make(chan bmAns, 1)
+		go func(in []rune, wins [][2]int) {
+			ev := map[string]int{}
+			var out []int64
+			nontrivial := false
+			for wi, w := range wins {
+				for q := 0; q <= n; q++ {
+					func() {
+						defer func() {
+							if r := recover(); r != nil {
+								out = append(out, 2, 0)
+								ev["scan:fault"]++
+							}
+						}()
+						r := bm.Scan(in, q, w[0], w[1])
+						out = append(out, 0, int64(r))
+						if wi != 0 {
+							return
+						}
+						if r == -1 {
+							ev["scan:not-found"]++
+							nontrivial = true
+						} else if r != q {
+							ev["scan:found-later"]++
+							nontrivial = true
+							if bc.rtl {
+								ev["scan:rtl-skip"]++
+							} else {
+								ev["scan:ltr-skip"]++
+							}
+							if nu == nil {
+								ev["scan:ascii-table-skip"]++
+							}
+						}
+						if r != -1 && bc.ci {
+							start := r
+							if bc.rtl {
+								start = r - m
+							}
+							if start >= 0 && start+m <= n && string(in[start:start+m]) != string(lp) {
+								ev["scan:case-insensitive-hit-other-case"]++
+							}
 						}
 					}()
-					r := bm.Scan(in, q, w[0], w[1])
-					out = append(out, 0, int64(r))
-					if wi != 0 {
-						return
-					}
-					if r == -1 {
-						ev["scan:not-found"]++
-						nontrivial = true
-					} else if r != q {
-						ev["scan:found-later"]++
-						nontrivial = true
-						if bc.rtl {
-							ev["scan:rtl-skip"]++
+					func() {
+						defer func() {
+							if r := recover(); r != nil {
+								out = append(out, 2, 0)
+								ev["scan:fault"]++
+							}
+						}()
+						ok := bm.IsMatch(in, q, w[0], w[1])
+						out = append(out, 0, b2i(ok))
+						if ok {
+							ev["ismatch:true"]++
 						} else {
-							ev["scan:ltr-skip"]++
-						}
-						if nu == nil {
-							ev["scan:ascii-table-skip"]++
-						}
-					}
-					if r != -1 && bc.ci {
-						start := r
-						if bc.rtl {
-							start = r - m
-						}
-						if start >= 0 && start+m <= n && string(in[start:start+m]) != string(lp) {
-							ev["scan:case-insensitive-hit-other-case"]++
-						}
-					}
-				}()
-				func() {
-					defer func() {
-						if r := recover(); r != nil {
-							out = append(out, 2, 0)
-							ev["scan:fault"]++
+							ev["ismatch:false"]++
 						}
 					}()
-					ok := bm.IsMatch(in, q, w[0], w[1])
-					out = append(out, 0, b2i(ok))
-					if ok {
-						ev["ismatch:true"]++
-					} else {
-						ev["ismatch:false"]++
-					}
-				}()
+				}
 			}
+			ch <- bmAns{out, nontrivial, ev}
+		}(in, wins)
+		timer := time.NewTimer(5 * time.Second)
+		select {
+		case a := <-ch:
+			timer.Stop()
+			out, nontrivial = a.out, a.nontrivial
+			for k, v := range a.ev {
+				ev[k] += v
+			}
+		case <-timer.C:
+			bmHung++
+			c.Add(&Case{Desc: fmt.Sprintf("%s text %+q (runes %v) windows %v: Scan / IsMatch did not return within 5 s (an advance of 0 or against the scan direction loops forever)", pdesc, string(in), in, wins),
+				Direct: "BmPrefix.Scan does not terminate", Key: "H|" + pdesc, Class: "bm-scan"})
+			continue
 		}
 		// which lookup paths the text can drive (computed from the tables, the text and the fold)
 		for _, x := range in {
